@@ -22,10 +22,49 @@ OUT OF OR IN CONNECTION WITH THE SOFTWARE OR THE USE OR OTHER DEALINGS IN
 THE SOFTWARE.
 """
 
-import functools
-import shlex
-
 from pytools import UniqueNameGenerator
+
+
+def split_outside_quotes(line, escape_char="\\"):
+    """Split *line* at whitespace that is not part of a quoted string. Quotes
+    stay part of the tokens. Unlike :func:`shlex.split`, this recognizes a
+    quoted string wherever it starts, not just at the beginning of a token
+    (as in ``f('a b')``).
+
+    :arg escape_char: the character that, inside a quoted string, makes the
+        next character lose its meaning, or *None* if the language has none
+        (Fortran doubles the quote instead, which needs no special care).
+    """
+    tokens = []
+    current_token = []
+    quote_char = None
+
+    chars = iter(line)
+    for char in chars:
+        if quote_char is not None:
+            current_token.append(char)
+            if char == escape_char:
+                # escaped character
+                current_token.extend(next(chars, ""))
+            elif char == quote_char:
+                quote_char = None
+        elif char in "\"'":
+            quote_char = char
+            current_token.append(char)
+        elif char.isspace():
+            if current_token:
+                tokens.append("".join(current_token))
+                current_token = []
+        else:
+            current_token.append(char)
+
+    if quote_char is not None:
+        raise ValueError("No closing quotation")
+
+    if current_token:
+        tokens.append("".join(current_token))
+
+    return tokens
 
 
 def wrap_line_base(line, level=0, width=80, indentation="    ",
@@ -42,7 +81,7 @@ def wrap_line_base(line, level=0, width=80, indentation="    ",
     `lex_func` argument returns the list of tokens in the line.
     """
     if lex_func is None:
-        lex_func = functools.partial(shlex.split, posix=False)
+        lex_func = split_outside_quotes
 
     tokens = lex_func(line)
     resulting_lines = []
